@@ -200,12 +200,12 @@ pub fn run_mutex(ctx: &Ctx) {
     if ctx.worker >= 2 {
         return; // real threads want the cores: two worker processes per profile are enough
     }
-    ctx.run_prop("real-mutex", ctx.cases(150, 6000), real_case(false), |c| tolerant(run_real(c, false), ctx));
+    ctx.run_prop_opts("real-mutex", ctx.cases(150, 6000), 6, real_case(false), |c| tolerant(run_real(c, false), ctx));
 }
 
 pub fn run_rwlock(ctx: &Ctx) {
     if ctx.worker >= 2 {
         return;
     }
-    ctx.run_prop("real-rwlock", ctx.cases(150, 6000), real_case(true), |c| tolerant(run_real(c, true), ctx));
+    ctx.run_prop_opts("real-rwlock", ctx.cases(150, 6000), 6, real_case(true), |c| tolerant(run_real(c, true), ctx));
 }
